@@ -14,6 +14,7 @@ from pyvc.props import PROPS
 PYVT = shutil.which('python3-vt') or '/opt/veriftools/pyvenv/bin/python'
 PYREPO = '/venv/bin/python'
 REPO = os.environ.get('PYVC_REPO', '/repo')
+OUT = os.environ.get('PYVC_OUT', ROOT)          # where evidence/ and replays/ are written (seed tests redirect it so that committed evidence is not disturbed)
 
 
 def slug(s): return re.sub(r'[^A-Za-z0-9]+', '-', s).strip('-')[:90]
@@ -55,7 +56,8 @@ def native(driver, scenario, timeout=300, prop=None):
             for f in r['failures']:
                 cl = [c for c in f['failed_clauses'] if prop in c.split(':')[0] and not any(pt.search(c) for pt in pats)]
                 if cl: kept.append(dict(f, failed_clauses=cl))
-            r['failures'] = kept; r['reproduced'] = bool(kept)
+            r['n_failures_before_filter'] = r.get('n_failures', len(r['failures'])); r['failures'] = kept; r['reproduced'] = bool(kept); r['n_failures'] = len(kept)
+            r['filter'] = f'clauses about {prop} only; clauses matching an open known finding (native_clause) are dropped'
         return r
     except subprocess.TimeoutExpired:
         return {'reproduced': False, 'note': 'replay driver timed out'}
@@ -78,8 +80,13 @@ def main():
     a = ap.parse_args()
     if a.replay: sys.exit(do_replay(a.replay))
     pid = a.prop; spec = PROPS[pid]; t0 = time.time(); seed = int(os.environ.get('VERIF_SEED', '0'))
-    os.makedirs(os.path.join(ROOT, 'evidence'), exist_ok=True); os.makedirs(os.path.join(ROOT, 'replays'), exist_ok=True)
+    os.makedirs(os.path.join(OUT, 'evidence'), exist_ok=True); os.makedirs(os.path.join(OUT, 'replays'), exist_ok=True)
     extra = [x for e in a.edit for x in ('--edit', e)]
+    import concurrent.futures as _cf
+    pool = _cf.ThreadPoolExecutor(4); sup_fut = []
+    for sup in spec.get('supplements', []):          # bounded native supplements run alongside the deductive units
+        if sup.get('tier', 'quick') == 'thorough' and a.tier != 'thorough': continue
+        sup_fut.append((sup, pool.submit(native, sup['driver'], dict(sup.get('args', {}), tier=a.tier, seed=seed), sup.get('timeout', 900), pid)))
     reports = run_units(spec['units'], extra)
     broken = []; undecided = []; obls = []; functions = []; trusted = []; dropped = set(); infos = {}
     for i in range(len(a.edit)):
@@ -99,9 +106,8 @@ def main():
     if not guards and not broken: broken.append("no vacuity guard was generated")
     # ---- supplements (bounded; never counted as proved)
     supplements = []
-    for sup in spec.get('supplements', []):
-        if sup.get('tier', 'quick') == 'thorough' and a.tier != 'thorough': continue
-        r = native(sup['driver'], dict(sup.get('args', {}), tier=a.tier, seed=seed), timeout=sup.get('timeout', 900), prop=pid)
+    for sup, fut in sup_fut:
+        r = fut.result()
         supplements.append({'name': sup['name'], 'bounded': True, 'bound': sup['bound'], 'driver': sup['driver'], 'args': sup.get('args', {}), 'result': {kx: vx for kx, vx in r.items() if kx != 'failures'}, 'failures': r.get('failures', [])[:20]})
     # ---- verdicts
     known = [kf for kf in load_known() if kf.get('property') == pid and kf.get('status') == 'open']
@@ -131,7 +137,7 @@ def main():
         rel = f"replays/{pid}-{slug(name)}.json"
         json.dump({'property': pid, 'obligation': name, 'unit': o['unit'], 'paths_refuted': len(os_), 'solver': o['solver'], 'solver_verdict': o['raw'], 'driver': drv, 'scenario': scenario,
                    'model_excerpt': o.get('model_excerpt'), 'native': nat, 'functions': [f for f in functions if f['unit'] == o['unit']],
-                   'rerun': f"./check {pid} --replay {rel}"}, open(os.path.join(ROOT, rel), 'w'), indent=1, default=str)
+                   'rerun': f"./check {pid} --replay {rel}"}, open(os.path.join(OUT, rel), 'w'), indent=1, default=str)
         kf = next((kf for kf in known if kf.get('obligation') == name), None)
         if kf: lines.append(f"KNOWN-FINDING: property={pid} {name}: {kf['what']}"); nknown += 1
         else:
@@ -147,7 +153,7 @@ def main():
         if unknown_fl:
             rel = f"replays/{pid}-supplement-{slug(s['name'])}.json"
             json.dump({'property': pid, 'obligation': f"supplement:{s['name']}", 'bounded': True, 'bound': s['bound'], 'driver': s.get('driver'), 'scenario': s.get('args', {}),
-                       'failing_inputs': [dict(fl, key=key) for key, fl in unknown_fl], 'rerun': f"./check {pid} --replay {rel}"}, open(os.path.join(ROOT, rel), 'w'), indent=1, default=str)
+                       'failing_inputs': [dict(fl, key=key) for key, fl in unknown_fl], 'rerun': f"./check {pid} --replay {rel}"}, open(os.path.join(OUT, rel), 'w'), indent=1, default=str)
             lines.append(f"VIOLATION property={pid} replay={rel}"); nviol += 1
     proved = [o for o in goals if o['status'] == 'proved']
     n_known_refuted = sum(len(v) for n_, v in refuted.items() if any(kf.get('obligation') == n_ for kf in known))
@@ -173,7 +179,7 @@ def main():
                        'explanation': spec.get('explanation', '')},
           'assumptions': spec.get('assumptions', []) + ["Python semantics as encoded by pyvc (DESIGN 2.2): evaluation order, truthiness, exceptions, attribute reads are pure"],
           'not_decided': spec.get('not_decided', [])}
-    json.dump(ev, open(os.path.join(ROOT, 'evidence', pid + '.json'), 'w'), indent=1, default=str)
+    json.dump(ev, open(os.path.join(OUT, 'evidence', pid + '.json'), 'w'), indent=1, default=str)
     for l in lines: print(l)
     print(f"{pid}: {len(goals)} obligations, {len(proved)} proved, {sum(len(v) for v in refuted.values())} refuted ({nknown} known findings), {len(und)} undecided; "
           f"{len(functions)} functions under contract; {ev['wall_s']} s")
